@@ -578,6 +578,33 @@ func getReferenceFieldValue(v reflect.Value) (value int64, err error) {
 	return
 }
 
+// skipOpenType steps over an open type value (length determinant, alignment, contents) without decoding it
+func (pd *perBitData) skipOpenType() error {
+	repeat := false
+	for {
+		rawLength, err := pd.parseLength(-1, &repeat)
+		if err != nil {
+			return err
+		}
+		if rawLength == 0 {
+			break
+		} else if err := pd.parseAlignBits(); err != nil {
+			return err
+		}
+		if (rawLength + pd.byteOffset) > uint64(len(pd.bytes)) {
+			return fmt.Errorf("per data out of range ")
+		}
+		pd.byteOffset += rawLength
+		if !repeat {
+			if err := pd.parseAlignBits(); err != nil {
+				return err
+			}
+			break
+		}
+	}
+	return nil
+}
+
 func (pd *perBitData) parseOpenType(v reflect.Value, params fieldParameters) error {
 
 	pdOpenType := &perBitData{[]byte(""), 0, 0}
@@ -739,8 +766,10 @@ func parseField(v reflect.Value, pd *perBitData, params fieldParameters) error {
 					}
 				}
 				if present == 0 {
-					return nil
-					//return fmt.Errorf("OpenType reference value does not match any field")
+					// no alternative for this reference value (an IE or message this release does not
+					// know): its value is an open type all the same and has to be stepped over, or
+					// everything behind it is read from the wrong place
+					return pd.skipOpenType()
 				} else if present >= structType.NumField() {
 					return fmt.Errorf("OpenType Present is bigger than number of struct field")
 				} else {
